@@ -152,6 +152,7 @@ func buildCases(thorough bool) []scase {
 	add("initialize", "result-null", `null`)
 	cs = append(cs, numberCases(thorough)...)
 	cs = append(cs, stringCases()...)
+	cs = append(cs, envelopeNameCases()...)
 	// JSON-RPC errors, each code, on every method
 	for _, m := range []string{"tools/call", "tools/list", "prompts/list", "prompts/get", "resources/list", "resources/read", "initialize"} {
 		for _, e := range rpcErrors {
@@ -238,6 +239,34 @@ func stringCases() []scase {
 		for _, m := range []string{"tools/call", "tools/list", "prompts/get", "resources/read", "initialize"} {
 			cs = append(cs, scase{Label: m + ":error-text:" + x.l, Method: m, Key: "error-str-" + x.l, Error: `{"code":-32603,"message":` + t + `,"data":{"detail":` + t + `}}`})
 		}
+	}
+	return cs
+}
+
+// results whose NESTED members bear the names of the JSON-RPC envelope — method, id, result, error, jsonrpc, params — in
+// structured content, in input schemas (properties and their defaults), in prompt arguments, in _meta, in experimental
+// capabilities, as texts: a client that classifies a message by looking for `"method":` anywhere in it takes such an
+// answer for a request of the server
+func envelopeNameCases() []scase {
+	var cs []scase
+	add := func(method, pos, result string) {
+		cs = append(cs, scase{Label: method + ":envelope-names:" + pos, Method: method, Key: "env-" + pos, Result: result})
+	}
+	nested := `{"method":"GET","id":7,"result":{"ok":true},"error":null,"jsonrpc":"2.0","params":{"method":"tools/call","id":"x"}}`
+	add("tools/call", "structured", `{"content":[{"type":"text","text":"{\"method\":\"ping\",\"id\":1}"}],"structuredContent":`+nested+`,"_meta":`+nested+`}`)
+	add("tools/call", "structured-method-only", `{"content":[],"structuredContent":{"method":"GET"}}`)
+	add("tools/call", "structured-id-only", `{"content":[],"structuredContent":{"id":1}}`)
+	add("tools/call", "structured-error-only", `{"content":[],"structuredContent":{"error":{"code":1,"message":"nested"}}}`)
+	add("tools/call", "structured-result-only", `{"content":[],"structuredContent":{"result":{}}}`)
+	add("tools/call", "embedded-resource-text", `{"content":[{"type":"resource","resource":{"uri":"verif://m","text":"\"method\": \"x\", \"id\": 1"}}]}`)
+	add("tools/list", "schema-properties", `{"tools":[{"name":"http","description":"\"method\":","inputSchema":{"type":"object","properties":{"method":{"type":"string","default":"GET","enum":["GET","POST"]},"id":{"type":"integer"},"result":{"type":"object","properties":{"error":{"type":"string"}}},"jsonrpc":{"type":"string"}},"required":["method","id"]},"annotations":{"title":"method"}}]}`)
+	add("prompts/list", "argument-names", `{"prompts":[{"name":"method","description":"id","arguments":[{"name":"method","required":true},{"name":"id"},{"name":"result"},{"name":"error"}]}]}`)
+	add("prompts/get", "meta", `{"messages":[{"role":"user","content":{"type":"text","text":"method"}}],"_meta":`+nested+`}`)
+	add("resources/list", "names", `{"resources":[{"name":"method","uri":"verif://method","description":"id"}],"_meta":{"method":"x"}}`)
+	add("resources/read", "meta", `{"contents":[{"uri":"verif://id","text":"result"}],"_meta":{"id":5,"method":"m"}}`)
+	add("initialize", "experimental", `{"protocolVersion":"2025-03-26","capabilities":{"experimental":{"rpc":`+nested+`}},"serverInfo":{"name":"method","version":"id"},"_meta":{"method":"initialize"}}`)
+	for _, m := range []string{"tools/call", "tools/list", "initialize"} {
+		cs = append(cs, scase{Label: m + ":envelope-names:error-data", Method: m, Key: "env-error-data", Error: `{"code":-32000,"message":"\"method\": nested","data":` + nested + `}`})
 	}
 	return cs
 }
